@@ -22,7 +22,7 @@
    Go's memory model; the tie fact below ("every method locks st.mu first and holds it to
    return") and the race-detector run described in notes/design-C14.md are the support. *)
 From Verif Require Import TrackerSpec TrackerImpl TrackerObs TrackerAlias TrackerC14
-     TrackerAliasProofs TrackerAliasSnap TrackerAliasThm.
+     TrackerAliasProofs TrackerAliasSnap TrackerAliasThm TrackerHammerProofs.
 From Verif Require TrackerRefine Lts LockedObj LockedObjProofs LinCheck LinCheckProofs Facts.
 From Coq Require String.
 Import String.StringSyntax.
@@ -200,7 +200,27 @@ Theorem C14_checker_sound : forall me setup (h : list (LinCheck.hcall op (list b
     /\ LinCheck.lin_witness tstate op (list bytes) sp_step_obs obs_eqb (C14_conc_start me setup) order.
 Proof. intros me setup h. exact (LinCheckProofs.linearizable_sound tstate op (list bytes) sp_step_obs obs_eqb _ h C14_budget). Qed.
 
+(* the one-writer gate ("hammer" cases): a "yes" means every observed read is a query, and is the
+   plain model's answer to it in the state after SOME prefix w_1..w_j of the writer's calls with
+   (calls returned before the read was invoked) <= j <= (calls started when the read returned) —
+   with a single writer that is linearizability of the history; a torn snapshot matches no j *)
+Theorem C14_hammer_ok_says : forall me setup ws reads, C14_hammer_ok me setup ws reads = true ->
+  forall r, In r reads ->
+    is_query (r_q r) = true /\
+    exists j, (r_lo r <= j <= r_hi r)%nat /\ (j <= length ws)%nat /\
+      r_obs r = enc_result (snd (sp_step (fst (sp_run (C14_conc_start me setup) (take j ws))) (r_q r))).
+Proof. exact hammer_ok_says. Qed.
+(* a torn GetChannel (key of call 2, limit of call 1) is rejected; the two consistent ones pass *)
+Example C14_hammer_rejects_torn :
+  let ws := [OChannelModes c14_x [43; 107; 108]%N [[49%N]; [49%N]]; OChannelModes c14_x [43; 107; 108]%N [[50%N]; [50%N]]] in
+  let rd k l := Build_hread (OGetChannel c14_x) 0 2 [[67%N]; c14_x; []; []; [k]; [l]; [49%N]; c14_me; []] in
+  C14_hammer_ok c14_me c14_setup ws [rd 49%N 49%N; rd 50%N 50%N] = true
+  /\ C14_hammer_ok c14_me c14_setup ws [rd 50%N 49%N] = false.
+Proof. vm_compute. split; reflexivity. Qed.
+
 Print Assumptions tie_C14.
+Print Assumptions C14_hammer_ok_says.
+Print Assumptions C14_hammer_rejects_torn.
 Print Assumptions C14_fresh.
 Print Assumptions C14_mutation_frame.
 Print Assumptions C14_stable.
